@@ -100,8 +100,80 @@ fn attacker_ending(rng: &mut Rng) -> Option<Pos> {
     }
 }
 
+/// Minimal-material mates: a king in (or next to) a corner, hemmed in by its own piece,
+/// with only a minor piece or two, a rook or a pawn on the board.
+fn cornered_king(rng: &mut Rng) -> Option<Pos> {
+    let attacker_black = rng.chance(1, 2);
+    let ac = if attacker_black { BLACK } else { 0 };
+    let dc = ac ^ BLACK;
+    let mut sqs = [EMPTY; 64];
+    let corner = *rng.pick(&[0usize, 7, 56, 63]);
+    let (cf, cr) = ((corner % 8) as i32, (corner / 8) as i32);
+    let near = |df: i32, dr: i32| -> Option<usize> {
+        let (f, r) = (cf + df, cr + dr);
+        if (0..8).contains(&f) && (0..8).contains(&r) {
+            Some((r * 8 + f) as usize)
+        } else {
+            None
+        }
+    };
+    let dk = if rng.chance(2, 3) {
+        corner
+    } else {
+        near(*rng.pick(&[-1, 0, 1]), *rng.pick(&[-1, 0, 1])).unwrap_or(corner)
+    };
+    sqs[dk] = K | dc;
+    // defender's own blockers next to the king
+    for _ in 0..rng.range(0, 2) {
+        if let Some(s) = near(*rng.pick(&[-1, 0, 1]), *rng.pick(&[-1, 0, 1])) {
+            if sqs[s] == EMPTY {
+                let t = *rng.pick(&[B, N, P, R, B, N]);
+                if t != P || (8..56).contains(&s) {
+                    sqs[s] = t | dc;
+                }
+            }
+        }
+    }
+    // attacker king close by
+    for _ in 0..20 {
+        if let Some(s) = near(*rng.pick(&[-2, -1, 0, 1, 2]), *rng.pick(&[-2, -1, 0, 1, 2])) {
+            if sqs[s] == EMPTY {
+                sqs[s] = K | ac;
+                break;
+            }
+        }
+    }
+    if !sqs.contains(&(K | ac)) {
+        return None;
+    }
+    for _ in 0..rng.range(1, 2) {
+        let t = *rng.pick(&[B, N, B, N, R, P]);
+        for _ in 0..20 {
+            let s = rng.usize_below(64);
+            if sqs[s] == EMPTY && (t != P || (8..56).contains(&s)) {
+                sqs[s] = t | ac;
+                break;
+            }
+        }
+    }
+    let pos = Pos {
+        sq: sqs,
+        white: rng.chance(1, 2),
+        castle: [false; 4],
+        ep: None,
+        hmc: rng.below(21) as u32,
+        fmn: rng.range(1, 90) as u32,
+    };
+    if pos.is_sane() && !pos.legal_moves().is_empty() {
+        Some(pos)
+    } else {
+        None
+    }
+}
+
 fn candidate(rng: &mut Rng) -> Option<Pos> {
-    match rng.below(10) {
+    match rng.below(12) {
+        10..=11 => cornered_king(rng),
         0..=4 => attacker_ending(rng),
         5..=7 => {
             let (_, ps) = playout(&Pos::start(), rng.range(16, 90) as usize, rng, true);
@@ -209,6 +281,7 @@ pub fn check(plans: &[Plan], recs: &[RunRec]) -> Outcome {
         out.stats.inc("cases.avoidable_mate_threat");
     }
     let mut earlier = 0;
+    let mut completed3_before = false;
     for v in &views {
         let g = v.go;
         if g.tid.is_none() {
@@ -231,7 +304,14 @@ pub fn check(plans: &[Plan], recs: &[RunRec]) -> Outcome {
             }
             continue;
         };
-        if !completed3 {
+        let asked = v.limits.depth.unwrap_or(0);
+        if completed3 {
+            completed3_before = true;
+        } else if asked >= 3 && completed3_before {
+            // asked for at least three plies, on a cache that already holds a completed
+            // 3-ply search of this very position: the clause applies to this answer too
+            out.stats.inc("reach.depth3_search_answered_from_cache_without_iterating");
+        } else {
             out.stats.inc("searches_vacuous_no_depth3_iteration");
             earlier += 1;
             continue;
@@ -293,31 +373,54 @@ pub fn check(plans: &[Plan], recs: &[RunRec]) -> Outcome {
                 ));
                 continue;
             }
+            // Is a forced mate still there against every defence? Looked for within
+            // four further attacker moves. "lost" is reported only when the search for it
+            // was exhaustive (or the mating material is gone); otherwise inconclusive.
             let mut verdict = "kept";
             let mut why = String::new();
-            for r in after.legal_moves() {
+            let mut budget = Solver::new(1_500_000);
+            'replies: for r in after.legal_moves() {
                 let p2 = after.make(r);
                 if insufficient(&p2, pos.white) {
                     verdict = "lost";
                     why = format!("after {} the attacker has no mating material left", r.uci());
                     break;
                 }
-                if !Solver::mating_moves(&p2).is_empty() {
-                    continue;
+                let mut settled = None;
+                for n in 1..=4 {
+                    match budget.mate_in(&p2, n) {
+                        Some(true) => {
+                            settled = Some(true);
+                            break;
+                        }
+                        Some(false) => settled = Some(false),
+                        None => {
+                            settled = None;
+                            break;
+                        }
+                    }
                 }
-                let mut sv = Solver::new(300_000);
-                match sv.mate_in(&p2, 3) {
+                match settled {
                     Some(true) => {}
-                    _ => {
-                        // Longer mates may exist: only bare-king endings are certified.
+                    Some(false) => {
                         let defender_bare = p2
                             .sq
                             .iter()
                             .filter(|&&p| p != EMPTY && ((p & BLACK == 0) != pos.white))
                             .all(|&p| ptype(p) == K);
-                        if defender_bare && !insufficient(&p2, pos.white) {
-                            // textbook win: mating material kept against a bare king
-                        } else if verdict == "kept" {
+                        if defender_bare {
+                            // bare king: mating material kept is the textbook certificate
+                            continue;
+                        }
+                        verdict = "lost";
+                        why = format!(
+                            "after the reply {} exhaustive analysis finds no mate within four more moves (a mate in two existed before the move)",
+                            r.uci()
+                        );
+                        break 'replies;
+                    }
+                    None => {
+                        if verdict == "kept" {
                             verdict = "unproven";
                         }
                     }
